@@ -7,7 +7,7 @@ import lat_registry as LR
 MODULES = ["AscentVerif.Props.C16Basic", "AscentVerif.Props.C16Struct", "AscentVerif.Props.TieD"]
 THEOREMS = ["constProp_pcmp_eq", "constProp_meet_eq", "constProp_join_eq", "constProp_meetMut_eq", "constProp_joinMut_eq", "combineOrderings_eq", "option_meetMut_eq", "option_joinMut_eq", "join_comm", "meet_comm", "join_assoc", "meet_assoc", "join_idem", "meet_idem", "join_meet_absorb", "meet_join_absorb",
             "le_iff_join_eq", "le_iff_meet_eq", "joinMut_truthful", "meetMut_truthful", "joinMut_idle",
-            "lawfulLinOrd_int", "lawfulLinOrd_bool", "lawfulLinOrd_bint", "lawfulLinOrd_prod", "lawful_prim", "lawfulB_prim_bint",
+            "lawfulLinOrd_int", "lawfulLinOrd_bool", "lawfulLinOrd_bint", "lawfulLinOrd_prod", "lawfulLinOrd_dualLin", "lawful_prim", "lawfulB_prim_bint",
             "lawfulB_prim_bool", "lawful_option", "lawfulB_option", "lawful_boxed", "lawful_shared", "lawful_dual", "lawfulB_dual",
             "lawful_rev", "lawfulB_rev", "dual_swaps", "rev_swaps", "lawful_ordLat", "lawful_lexTuple", "lawfulB_unit", "lawfulB_constProp",
             "combineOrderings_spec", "lawfulPTail_unit", "lawfulPTail_cons", "lawful_product", "product_pair_le", "lawful_productArr",
